@@ -12,4 +12,5 @@ def units(tier):
         for n in (1, 2):
             u.append(dict(kind="func", mechanism="bounded runtime contract (C), native floats", name=f"bounded:{w}-native[n={n}]", module="vf.tasks.t_tomo", func="unit", args=dict(mode="native", which=w, n=n)))
     u.append(frame_unit("tomography", TOMO_FILES + GATE_FILES))
+    u.append(dict(kind="func", mechanism="bounded runtime contract (C), native floats", name="bounded:scans-and-retries", module="vf.tasks.t_tomo", func="unit_scans", args={}))
     return u
